@@ -17,6 +17,7 @@ struct UbjsonB {
     template <class O> static ojson decode_stream(std::istream& is, const O& o) { return ubjson::decode_ubjson<ojson>(is, o); }
     static void encode(const ojson& j, std::vector<uint8_t>& out, uint64_t) { ubjson::encode_ubjson(j, out); }
     static void encode_stream(const ojson& j, std::ostream& os, uint64_t) { ubjson::encode_ubjson(j, os); }
+    static Outcome encoder_nest(int ckind, size_t depth, int limit) { auto opt = ubjson::ubjson_options{}.max_nesting_depth(limit); return encoder_nest_impl<ubjson::ubjson_bytes_encoder, std::vector<uint8_t>, ubjson::ubjson_options>(ckind, depth, opt, false); }
     static const char* const* seed_hex() {
         // Z T F N  i U I l L d D  C S H  [ ] { }  $ #
         static const char* const s[] = {
